@@ -130,3 +130,37 @@ for _nm in ("ZERO32", "ONE32", "TWO32"):
     if m and len(_vals) != 32:
         errors.append("issuance.rs: const %s does not have 32 entries" % _nm)
     lines.append("Definition c11_%s : list N := [%s]." % (_nm.lower(), "; ".join(str(v) for v in _vals)))
+
+
+# ---------------------------------------------------------------- C01 (used by C02, C12): the small predicates the encoders branch on,
+# translated function by function into Gen/SrcPreds.v; Proofs/SrcPreds.v proves each equal to the hand-written model definition.
+def _c01_preds():
+    R = rust2coq
+    em = R.Emitter({})
+    conf, txrs = src("confidential.rs"), src("transaction.rs")
+    todo = []
+    for ty in ("Value", "Asset", "Nonce"):
+        for f in ("is_null", "is_explicit", "is_confidential", "encoded_length"):
+            todo.append((conf, r"impl\s+%s\s*\{" % ty, ty, f))
+    todo += [(txrs, r"impl\s+AssetIssuance\s*\{", "AssetIssuance", "is_null"),
+             (txrs, r"impl\s+TxInWitness\s*\{", "TxInWitness", "is_empty"),
+             (txrs, r"impl\s+TxOutWitness\s*\{", "TxOutWitness", "is_empty"),
+             (txrs, r"impl\s+TxOutWitness\s*\{", "TxOutWitness", "rangeproof_len"),
+             (txrs, r"impl\s+TxOutWitness\s*\{", "TxOutWitness", "surjectionproof_len"),
+             (txrs, r"impl\s+TxIn\s*\{", "TxIn", "has_issuance"),
+             (txrs, r"impl\s+Transaction\s*\{", "Transaction", "has_witness")]
+    defs = []
+    for text, impl_re, ty, f in todo:
+        try:
+            defs.append(R.translate_fn(em, text, impl_re, ty, f, "src_%s_%s" % (ty, f)))
+        except R.Unsupported as e:
+            errors.append("%s::%s is no longer in the translatable subset (%s)" % (ty, f, e))
+    head = ["(* GENERATED by translator/tables_C01.py (rust2coq) from /repo/src/confidential.rs and /repo/src/transaction.rs on every run — do not edit. *)",
+            "From Coq Require Import List NArith Bool.", "From Coq.Strings Require Import Byte.",
+            "From EV Require Import Base.Bytes Base.Codec Model.Tx Model.Sizes.   (* Model.Sizes only for the helpers blen and nsum *)",
+            "Import ListNotations.", "Open Scope N_scope.", "Open Scope bool_scope.", ""]
+    write_gen("SrcPreds.v", "\n".join(head + defs) + "\n")
+    globals()["_src_preds_fns"] = em.fns
+
+
+_c01_preds()
